@@ -6,6 +6,7 @@ import (
 	"strings"
 	"sync"
 	"unicode"
+	"unicode/utf8"
 
 	"go.lsp.dev/protocol"
 
@@ -320,10 +321,16 @@ func tokenizeForSemantics(content string) []semanticToken {
 			}
 		}
 
+		col, length := lexemeSpan(content, tok)
+		if length == 0 {
+			// nothing of the token is written on the line (a text token of blanks only)
+			continue
+		}
+
 		tokens = append(tokens, semanticToken{
 			line:      uint32(tok.Pos.Line - 1),
-			col:       uint32(tok.Pos.Column - 1),
-			length:    uint32(lexemeLength(content, tok)),
+			col:       col,
+			length:    length,
 			tokenType: semType,
 			modifiers: modifiers,
 		})
@@ -332,24 +339,23 @@ func tokenizeForSemantics(content string) []semanticToken {
 	return tokens
 }
 
-// lexemeLength returns the number of UTF-16 code units that tok occupies in content.
-func lexemeLength(content string, tok parser.Token) int {
-	switch tok.Type {
-	case parser.TokenComment:
+// lexemeSpan returns the column where the characters of tok start on its line and the
+// number of UTF-16 code units they occupy.
+func lexemeSpan(content string, tok parser.Token) (col, length uint32) {
+	col = uint32(tok.Pos.Column - 1)
+	if tok.Type == parser.TokenComment {
 		// the value starts after the semicolon
-		return lsputil.UTF16Len(tok.Value) + 1
-	case parser.TokenCode, parser.TokenCommodity:
-		// the value of a code has no parentheses and the value of a quoted commodity
-		// has no quotes, the token in the document has
-		return lsputil.UTF16Len(sourceText(content, tok))
-	default:
-		return lsputil.UTF16Len(tok.Value)
+		return col, uint32(lsputil.UTF16Len(tok.Value) + 1)
 	}
-}
 
-// sourceText returns the characters of tok as they are written in content.
-func sourceText(content string, tok parser.Token) string {
-	return strings.TrimSpace(content[tok.Pos.Offset:tok.End.Offset])
+	// The value is not always what is written in the document: the value of a code has no
+	// parentheses, the value of a quoted commodity has no quotes, and a text token is
+	// scanned with the blanks around it while its value is trimmed. The token covers the
+	// characters between its ends without the white space around them.
+	source := content[tok.Pos.Offset:tok.End.Offset]
+	lead := leadingSpace(source)
+	col += uint32(utf8.RuneCountInString(source[:lead]))
+	return col, uint32(lsputil.UTF16Len(strings.TrimSpace(source)))
 }
 
 func extractTagTokensFromComment(tok parser.Token) []semanticToken {
